@@ -38,7 +38,9 @@ fn build<N, const K: usize>(ops: &[Op], chain: u8, bulk: u16, mk: &dyn Fn(i64) -
     let root = t.add_root(mk(100));
     let mut m = Model::new(K, root, 100);
     let mut cur = root;
-    for i in 0..chain as usize {
+    // values above 120 encode long chains: 120 + 4 * (chain - 120), i.e. up to 660 nodes (depth counters of one byte)
+    let chain_len = if chain > 120 { 120 + 4 * (chain as usize - 120) } else { chain as usize };
+    for i in 0..chain_len {
         let l = (i * 7 + 3) % K;
         match guard(|| t.add_child_node(cur, l, mk(i as i64))) {
             Ok(Ok(idx)) => {
@@ -464,7 +466,7 @@ impl Property for C13 {
             any::<u16>(),
             0u8..4,
             proptest::collection::vec(prop_oneof![3 => Just(true), 1 => Just(false)], 0..tier.pick(24, 60)),
-            prop_oneof![30 => Just(0u8), 1 => 1u8..=40, 1 => 60u8..=120],
+            prop_oneof![60 => Just(0u8), 2 => 1u8..=40, 2 => 60u8..=120, 1 => 160u8..=255],
         )
             .prop_flat_map(|(k, build, start, kind, script, chain)| (Just((k, build, start, kind, script, chain)), prop_oneof![299 => Just(0u16), 1 => 1100u16..3000]))
             .prop_map(|((k, build, start, kind, script, chain), bulk)| Case { k, build, start, kind, script, chain, bulk })
